@@ -1,10 +1,7 @@
 //@ inject src/utils/mod2_sys.rs
 //@ fn utils::mod2_sys::Modulo2Equation::add
 //@ fn utils::mod2_sys::Modulo2Equation::add_ptr
-//@ fn utils::mod2_sys::Modulo2System::gaussian_elimination
-//@ fn utils::mod2_sys::Modulo2System::echelon_form
 //@ harness mod2_add_len2 props=C19,C12 bounded="variable lists of length <= 2, variables < 4, W = u8 (unwind 6)" timeout=900
-//@ harness mod2_gauss_2x2 props=C19 bounded="<= 2 equations over 2 variables, each with 1..=2 strictly increasing variables, W = u8 (unwind 5)" timeout=1500
 //@ assume the error path (anyhow::bail! -> format!) is stubbed out of the harness by comparing only Ok / Err
 #[cfg(kani)]
 mod verif_kani_mod2 {
@@ -51,42 +48,5 @@ mod verif_kani_mod2 {
         assert!(in_r == (in_a != in_b));
         assert!(a.vars.len() <= 4);
         kani::cover!(in_r, "vacuity probe");
-    }
-
-    /// Ok(s) => check(s); Err => no assignment satisfies the system (2 variables of 8 bits, symbolic assignment)
-    #[kani::proof]
-    #[kani::unwind(5)]
-    fn mod2_gauss_2x2() {
-        let ne: usize = kani::any();
-        kani::assume(ne <= 2);
-        let mut sys = Modulo2System::<u8>::new(2);
-        let mut eqs: Vec<(Vec<u32>, u8)> = Vec::with_capacity(2);
-        let mut i = 0;
-        while i < ne {
-            let two: bool = kani::any();
-            let first: u32 = kani::any();
-            kani::assume(first < 2);
-            let vars = if two { vec![0u32, 1u32] } else { vec![first] };
-            let c: u8 = kani::any();
-            sys.push(Modulo2Equation::<u8> { vars: vars.clone(), c });
-            eqs.push((vars, c));
-            i += 1;
-        }
-        let s0: u8 = kani::any();
-        let s1: u8 = kani::any();
-        let mut sat = true;
-        let mut j = 0;
-        while j < eqs.len() {
-            let (v, c) = &eqs[j];
-            let mut e = 0u8;
-            if v.len() == 2 { e = s0 ^ s1; } else if v[0] == 0 { e = s0; } else { e = s1; }
-            if e != *c { sat = false; }
-            j += 1;
-        }
-        let mut copy = sys.clone();
-        match copy.gaussian_elimination() {
-            Ok(sol) => { assert!(sys.check(&sol)); }
-            Err(_) => { assert!(!sat); kani::cover!(true, "vacuity probe: an unsolvable system is reachable"); }
-        }
     }
 }
